@@ -199,8 +199,10 @@ namespace vf
             s.u8();
             return 0;
         }
-        static const int t[] = { 0, 1, 2, 3, 4, 7, 16 };
-        return t[s.weighted({ 220, 6, 10, 6, 6, 4, 4 })];
+        // few and small pools: the pool's workers busy-wait, so many-thread routers in every
+        // shard oversubscribe the machine (C10/C11 cover thread counts up to 16)
+        static const int t[] = { 0, 1, 2, 3, 4 };
+        return t[s.weighted({ 232, 6, 10, 4, 4 })];
     }
 
     inline std::vector<OpSpec> gen_resolver_program(vg::Src& s, ProgInfo& pi, bool allow_parallel)
@@ -338,3 +340,47 @@ namespace vf
         return r;
     }
 }
+
+namespace vf
+{
+    // bitwise comparison of two graph states up to the counts (cells beyond are not state)
+    inline std::string cmp_upto_counts(const GraphState& a, const GraphState& b, bool compare_donors)
+    {
+        if (a.n != b.n)
+            return "size";
+        for (size_t i = 0; i < a.n; ++i)
+        {
+            if (a.rec_count[i] != b.rec_count[i])
+                return "receivers_count of node " + std::to_string(i) + ": first " + std::to_string(a.rec_count[i]) + " second " + std::to_string(b.rec_count[i]);
+            if (a.rec_count[i] > a.rcols || b.rec_count[i] > b.rcols)
+                return "receivers_count of node " + std::to_string(i) + " exceeds the table width";
+            for (size_t k = 0; k < a.rec_count[i]; ++k)
+            {
+                if (R(a, i, k) != R(b, i, k))
+                    return "receiver " + std::to_string(k) + " of node " + std::to_string(i) + ": first " + std::to_string(R(a, i, k)) + " second " + std::to_string(R(b, i, k));
+                if (!vg::biteq(D(a, i, k), D(b, i, k)))
+                    return "receiver distance of node " + std::to_string(i);
+                if (!vg::biteq(W(a, i, k), W(b, i, k)))
+                    return "receiver weight of node " + std::to_string(i) + ": first " + vg::fmt(W(a, i, k)) + " second " + vg::fmt(W(b, i, k));
+            }
+            if (a.don_count[i] != b.don_count[i])
+                return "donors_count of node " + std::to_string(i) + ": first " + std::to_string(a.don_count[i]) + " second " + std::to_string(b.don_count[i]);
+            if (compare_donors)
+            {
+                if (a.don_count[i] > a.dcols)
+                    return "donors_count exceeds the table width";
+                for (size_t k = 0; k < a.don_count[i]; ++k)
+                    if (DON(a, i, k) != DON(b, i, k))
+                        return "donor " + std::to_string(k) + " of node " + std::to_string(i) + ": first " + std::to_string(DON(a, i, k)) + " second " + std::to_string(DON(b, i, k));
+            }
+        }
+        if (a.dfs != b.dfs)
+            return "dfs_indices";
+        if (a.bfs != b.bfs)
+            return "bfs_indices";
+        if (a.levels != b.levels)
+            return "bfs_levels";
+        return "";
+    }
+}
+
